@@ -11,6 +11,8 @@ import (
 	"strconv"
 	"strings"
 	"time"
+
+	"github.com/go-openapi/spec"
 )
 
 // ---------------------------------------------------------------------------------------------
@@ -494,8 +496,10 @@ func checkC06(in codecInput) []cfinding {
 	}
 	doc := in.data()
 	var first []byte
+	var lastDecoded interface{}
 	for i := 0; i < c06Repeats; i++ {
 		v, err, pan := safeDecode(in.Kind, doc) // decoded anew each time: maps are rebuilt
+		lastDecoded = v
 		if pan != "" {
 			return []cfinding{{shape: "panic", what: "decoding panics: " + pan}}
 		}
@@ -524,6 +528,9 @@ func checkC06(in codecInput) []cfinding {
 		// "it never emits text that parses to something other than what the model holds": for a normal-form document the text
 		// just emitted, decoded and encoded again, is the same text
 		if v2, err, pan := safeDecode(in.Kind, first); err == nil && pan == "" {
+			if d := heldDiff(reflect.ValueOf(lastDecoded), reflect.ValueOf(v2), ""); d != "" {
+				fs = append(fs, cfinding{shape: "held-value-differs", what: "the text emitted for a decoded normal-form document is read back as a value that differs from the one encoded, at " + d, observed: clip(first)})
+			}
 			if second, err, pan := safeEncode(v2); err == nil && pan == "" {
 				if eq, at := jsonEqual(first, second); !eq {
 					fs = append(fs, cfinding{shape: "reparse-differs", what: "the encoding of a decoded normal-form document decodes to a value that encodes differently, at " + at, observed: clip(second), expected: clip(first)})
@@ -831,4 +838,109 @@ func respellJSON(b []byte) []byte {
 		i++
 	}
 	return out
+}
+
+// heldDiff compares two model values the way a caller sees them, tolerating only the difference between an absent container
+// and an empty one (and an absent pointer and a pointer to nothing at all): the first path at which they differ, or "".
+func heldDiff(a, b reflect.Value, path string) string {
+	if a.IsValid() != b.IsValid() {
+		if (a.IsValid() && emptyish(a)) || (b.IsValid() && emptyish(b)) {
+			return ""
+		}
+		return path
+	}
+	if !a.IsValid() {
+		return ""
+	}
+	if a.Type() != b.Type() {
+		return path + " (type)"
+	}
+	if a.Type() == reflect.TypeOf(spec.Ref{}) {
+		ra, rb := a.Interface().(spec.Ref), b.Interface().(spec.Ref)
+		if ra.String() != rb.String() || (ra.GetURL() != nil) != (rb.GetURL() != nil) {
+			return path + " (reference)"
+		}
+		return ""
+	}
+	switch a.Kind() {
+	case reflect.Ptr, reflect.Interface:
+		if a.IsNil() || b.IsNil() {
+			if a.IsNil() && b.IsNil() {
+				return ""
+			}
+			if (a.IsNil() && emptyish(b.Elem())) || (b.IsNil() && emptyish(a.Elem())) {
+				return ""
+			}
+			return path
+		}
+		return heldDiff(a.Elem(), b.Elem(), path)
+	case reflect.Map:
+		if a.Len() != b.Len() {
+			return path + " (members)"
+		}
+		for _, k := range a.MapKeys() {
+			bv := b.MapIndex(k)
+			if !bv.IsValid() {
+				return path + "/" + fmt.Sprint(k.Interface())
+			}
+			if d := heldDiff(a.MapIndex(k), bv, path+"/"+fmt.Sprint(k.Interface())); d != "" {
+				return d
+			}
+		}
+		return ""
+	case reflect.Slice, reflect.Array:
+		if a.Len() != b.Len() {
+			return path + " (length)"
+		}
+		for i := 0; i < a.Len(); i++ {
+			if d := heldDiff(a.Index(i), b.Index(i), fmt.Sprintf("%s/%d", path, i)); d != "" {
+				return d
+			}
+		}
+		return ""
+	case reflect.Struct:
+		for i := 0; i < a.NumField(); i++ {
+			f := a.Type().Field(i)
+			if f.PkgPath != "" {
+				continue
+			}
+			if d := heldDiff(a.Field(i), b.Field(i), path+"."+f.Name); d != "" {
+				return d
+			}
+		}
+		return ""
+	default:
+		if !reflect.DeepEqual(a.Interface(), b.Interface()) {
+			return path
+		}
+		return ""
+	}
+}
+
+func emptyish(v reflect.Value) bool {
+	if !v.IsValid() {
+		return true
+	}
+	if v.Type() == reflect.TypeOf(spec.Ref{}) {
+		r := v.Interface().(spec.Ref)
+		return r.String() == "" && r.GetURL() == nil
+	}
+	switch v.Kind() {
+	case reflect.Ptr, reflect.Interface:
+		return v.IsNil() || emptyish(v.Elem())
+	case reflect.Map, reflect.Slice:
+		return v.Len() == 0
+	case reflect.Struct:
+		for i := 0; i < v.NumField(); i++ {
+			if v.Type().Field(i).PkgPath != "" {
+				continue
+			}
+			if !emptyish(v.Field(i)) {
+				return false
+			}
+		}
+		return true
+	default:
+		return v.IsZero()
+	}
 }
